@@ -31,6 +31,14 @@ def main(argv):
                 except Exception:
                     pass            # a refused load has been judged inside load()
                 s.evaluations += 1
+            elif data.get('witness', {}).get('type') == 'in-place':
+                # witness of the in-place monitor (harness.Session.add): the same message into the same content again
+                w_ = data['witness']
+                try:
+                    s.add(s.load(w_['ro_txt'], via='str'), s.load(w_['msg_txt'], via='str'))
+                except Exception:
+                    pass
+                s.evaluations += 1
             else:
                 mod.replay(s, data)
         else:
@@ -52,7 +60,7 @@ def main(argv):
             res = {}
         res.update({'prop': prop, 'worker': wi, 'harness_error': err})
     with open(out, 'w') as f:
-        json.dump(res, f)
+        json.dump(res, f, default=repr)        # whatever an accessor handed back ends up in a detail as its repr
     return 0
 
 
